@@ -800,13 +800,16 @@ fn minimise_and_write(
             .stderr(Stdio::null())
             .spawn()
             .ok();
+        // long schedules (pressure, flood, entry-pure sessions): every trial replays thousands of
+        // steps, so the budget buys little - keep it short and report the prefix as it is
+        let budget_s = if rf.plan.steps.len() > 3000 { 120 } else { 300 };
         if let Some(ch) = child.as_mut() {
             let t = Instant::now();
             loop {
                 match ch.try_wait() {
                     Ok(Some(_)) => break,
                     Ok(None) => {
-                        if t.elapsed() > Duration::from_secs(300) {
+                        if t.elapsed() > Duration::from_secs(budget_s) {
                             let _ = ch.kill();
                             let _ = ch.wait();
                             rf.notes.push("minimiser exceeded its wall-clock budget; unminimised prefix kept".into());
